@@ -113,6 +113,8 @@ def make_evaluator(values):
             return float(np.mod(a[0], a[1]))
         if name == "round":
             return float(np.round(a[0]))
+        if name in ("ceil", "floor"):
+            return float(getattr(np, name)(a[0]))
         if name == "cel_iter":
             return float(cel_iter(*[np.array([x]) for x in a])[0])
         base, i = name.rsplit(".", 1)
